@@ -18,6 +18,8 @@ pub mod c12;
 pub mod c13;
 pub mod c14;
 pub mod c15;
+#[cfg(feature = "pq")]
+pub mod c16;
 pub mod c17;
 pub mod codec;
 
@@ -44,6 +46,8 @@ pub fn run(prop: &str, leg: &str, ctx: &Ctx, rep: &mut Report) -> bool {
         ("C15", "determinism") => c15::determinism(ctx, rep),
         ("C15", "bitflips") => c15::bitflips(ctx, rep),
         ("C15", "child") => c15::child(ctx, rep),
+        #[cfg(feature = "pq")]
+        ("C16", "interop") => c16::interop(ctx, rep),
         ("C17", "synthetic") => c17::synthetic(ctx, rep),
         ("C17", "captured") => c17::captured(ctx, rep),
         ("C09", "blocks") => c09::blocks(ctx, rep),
@@ -69,6 +73,8 @@ pub fn replay(v: &Value) -> bool {
         "C12" => c12::replay(r),
         "C07" => codec::replay(r),
         "C03" => c03::replay(r),
+        #[cfg(feature = "pq")]
+        "C16" => c16::replay(r),
         "C17" => c17::replay(r),
         "C15" => c15::replay(r),
         "C04" => c04::replay(r),
